@@ -16,6 +16,7 @@ CONFIG = {
          "thorough": ["-cases", "60", "-bytes", "600", "-bytes-recorded", "6000", "-maxtx", "90"]},
     ],
     "trusted_base": [
+        "the model OasisModel/Stateless/TrustedStore.lean (store of trusted heights with watermark pruning; Size() taken as the number of stored heights, see counter_agrees_when_fresh / counter_drift_prunes_newest for the real store's separate counter) is tied to light/store.go by the regenerated statement pin Props/C19StoreFacts.lean and by statelessdrv going through the real prunedStore (verif hook NewVerifPrunedStore)",
         "Lean 4.33 kernel (axioms per theorem listed under coverage.axioms; at most propext, Classical.choice, Quot.sound)",
         "the model OasisModel/Stateless/{Verify,Merkle}.lean is tied to go/consensus/cometbft/stateless/core.go and cometbft crypto/merkle by the statelessdrv correspondence (verdict per response, byte-exact Merkle roots and proofs with a SHA-256 written in Lean) and by the regenerated check tables of lean/Generated/StatelessFacts.lean (tools/gen/statelessfacts.go)",
         "third-party decoders and hashes called by the verification code (fxamacker/cbor, gogoproto unmarshalling, CometBFT Header.Hash / CommitFromProto / ValidatorSetFromProto / ConsensusParams.ValidateBasic) are parameters of the model (Lib); the driver instantiates them with the values the real libraries computed",
